@@ -884,7 +884,9 @@ class BackendZ3(Backend):
         if track:
             already_tracked = {str(impl.children()[0]) for impl in s.assertions()}
             for constraint in c:
-                name = str(hash(constraint))
+                # Z3's 32-bit AST hash collides easily (x * y > 0x4d7 and x * y > 0x7fb share it), which silently
+                # dropped the second constraint; the AST id is unique among the asserted expressions
+                name = str(constraint.get_id())
                 if name not in already_tracked:
                     s.assert_and_track(constraint, name)
                     already_tracked.add(name)
